@@ -34,22 +34,40 @@ type stats struct {
 
 var garbageClasses = []int{0, 1, 15, 16, 4094, 4095}
 
-func handshakeScenarios(seed int64) []scen {
+// handshakeScenarios: the scenarios of the faulted handshake graph.  thorough
+// takes all eleven; quick a seeded rotation of four v2 scenarios plus the two
+// v1 fallbacks (every garbage class still occurs in both roles in hs-nofault).
+func handshakeScenarios(seed int64, thorough bool) []scen {
 	G := garbageClasses
-	sh := int(seed % 5)
-	if sh < 0 {
-		sh = -sh
-	}
-	var out []scen
+	sh := int(uint64(seed) % 5)
+	var v2s []scen
 	for i, g := range G {
-		out = append(out, scen{gI: g, gR: G[(i+1+sh)%len(G)], dI: (i + sh) % 3, dR: (i + 1) % 3, hello: "v2"})
+		v2s = append(v2s, scen{gI: g, gR: G[(i+1+sh)%len(G)], dI: (i + sh) % 3, dR: (i + 1) % 3, hello: "v2"})
 	}
 	for i, pm := range []int{1, 4, 15} {
-		out = append(out, scen{gI: G[(i+sh)%len(G)], gR: G[(2*i+sh+3)%len(G)], dI: i % 2, dR: (i + sh) % 2, hello: "v2", pm: pm})
+		v2s = append(v2s, scen{gI: G[(i+sh)%len(G)], gR: G[(2*i+sh+3)%len(G)], dI: i % 2, dR: (i + sh) % 2, hello: "v2", pm: pm})
 	}
-	out = append(out,
+	var out []scen
+	if thorough {
+		out = v2s
+	} else {
+		k := int(uint64(seed) % 6)
+		out = []scen{v2s[k], v2s[(k+1)%6], v2s[(k+3)%6], v2s[6+int(uint64(seed)%3)]}
+	}
+	return append(out,
 		scen{gR: G[(sh+2)%len(G)], dR: sh % 3, hello: "v1"},
 		scen{gR: G[(sh+4)%len(G)], dR: (sh + 1) % 3, hello: "v1wrong"})
+}
+
+// allGarbagePairs: every pair of garbage classes, decoy counts rotating.
+func allGarbagePairs(seed int64) []scen {
+	G := garbageClasses
+	var out []scen
+	for i, gi := range G {
+		for j, gr := range G {
+			out = append(out, scen{gI: gi, gR: gr, dI: (i + j + int(uint64(seed)%3)) % 3, dR: (i + 2*j) % 3, hello: "v2"})
+		}
+	}
 	return out
 }
 
@@ -101,6 +119,11 @@ func (j *job) run(ctx *vrun.Ctx, st *stats) error {
 	opts := tlc.Opts{SpecDir: ctx.SpecDir("v2"), Module: module, CfgText: cfg, Files: files, Workers: w,
 		Timeout: to, DumpGraph: j.mode == "graph", Sim: j.sim, Coverage: j.coverage, Scratch: ctx.Scratch, HeapGB: 6}
 	res, err := tlc.Run(opts)
+	if err != nil && (strings.Contains(err.Error(), "exit status 143") || strings.Contains(err.Error(), "exit status 137") || strings.Contains(err.Error(), "signal: ")) {
+		// the JVM was killed from outside (shared machine): one retry
+		ctx.Logf("%s: TLC was killed (%v), retrying once", j.name, strings.SplitN(err.Error(), "\n", 2)[0])
+		res, err = tlc.Run(opts)
+	}
 	if err != nil {
 		return fmt.Errorf("%s: %w", j.name, err)
 	}
